@@ -431,11 +431,37 @@ def buffer_slot_rule(P, rep, rid):
     e.g. the "recovered block is all zero, maybe it is the old content" test then looks at good data of disk 0 and accepts the zeros"""
     rep.rule(rid, 'repair / repair_step / is_hash_matching: buffer[] is indexed by failed[..].index or diskmax + parity index, never by the bare position in the failed list', 2)
     n = 0
-    for fn in ('repair', 'repair_step', 'is_hash_matching'):
+    # which parameter is the number of data disks (the base of the parity area)?  By role, not by name: in repair_step it is the
+    # value handed to raid_data() / raid_gen() as nd; repair passes it down to repair_step, repair_step to is_hash_matching
+    role = {}
+    rs = P.fn('repair_step')
+    ks = set()
+    for c in rs.calls({'raid_data', 'raid_gen'}):
+        o = c.ops[3] if c.callee == 'raid_data' else c.ops[0]
+        ks |= {x[1] for x in rs.value_sources(o) if x[0] == 'arg'}
+    if len(ks) == 1:
+        k = list(ks)[0]
+        role['repair_step'] = [k]
+        rp = P.fn('repair')
+        ms = set()
+        for c in rp.calls('repair_step'):
+            ms |= {x[1] for x in rp.value_sources(c.ops[k]) if x[0] == 'arg'}
+        if len(ms) == 1:
+            role['repair'] = list(ms)
+        for c in rs.calls():
+            g_ = P.functions.get(c.callee_full) if c.callee_full else None
+            if g_ is not None and not g_.decl and base(g_.name) not in role:
+                ps = [q for q, o in enumerate(c.ops[:len(g_.args)]) if any(x == ('arg', k) for x in rs.value_sources(o))]
+                if len(ps) == 1:
+                    role[base(g_.name)] = ps
+    hm = [x for x in role if x not in ('repair', 'repair_step')]
+    for fn in ['repair', 'repair_step'] + (['is_hash_matching'] if P.has('is_hash_matching') else hm[:1]):
         f = P.fn(fn)
         rep.analysed(f)
         seen = {}
-        pn = [k for k, a in enumerate(f.args) if a.get('name') == 'diskmax']
+        pn = role.get(fn) or [k_ for k_, a in enumerate(f.args) if a.get('name') == 'diskmax']
+        if not pn:
+            raise AnalysisBroken('%s: the parameter holding the number of data disks was not identified' % fn)
         for i in f.all_insts():
             if i.op != 'getelementptr' or len(i.ops) != 2:
                 continue
